@@ -124,6 +124,16 @@ def run_step(step, comps):
     op = step["op"]
     comp = step.get("comp", "fresh")
     reused = comp != "fresh"
+    if step.get("exhaust_sweep"):
+        # fault at EVERY depth in turn: the same call is issued once per margin and dies of stack exhaustion somewhere else each
+        # time (crash-point enumeration for one call on the reused components); never judged itself, later steps are
+        lo, hi, stp = step["exhaust_sweep"]
+        died = 0
+        inner = {k: v for k, v in step.items() if k != "exhaust_sweep"}
+        for m in range(lo, hi, stp):
+            r = run_step(dict(inner, exhaust=m), comps)
+            died += 1 if r and r[0] == "exc" else 0
+        return ["swept", died]
     sql = step.get("sql")
     read = step.get("read")
     write = step.get("write")
